@@ -129,6 +129,7 @@ func (a *SimApp) CommitBlock(block hg.Block) (proxy.CommitResponse, error) {
 	a.log = append(a.log, d)
 	if !a.shadow {
 		a.c.onDeliver(a.owner, d)
+		a.maybeSubmitFromCallback(&cp)
 	}
 	return resp, nil
 }
@@ -206,4 +207,23 @@ func nz(b []byte) []byte {
 		return []byte{}
 	}
 	return b
+}
+
+// maybeSubmitFromCallback models an application that submits a transaction
+// from inside its commit callback (the pools are refilled while the node is in
+// the middle of creating a self-event or inserting events).
+func (a *SimApp) maybeSubmitFromCallback(b *hg.Block) {
+	c := a.c
+	n := a.owner
+	if c.cfg.PCommitSubmit <= 0 || n.constructing || n.node == nil || !n.started || n.crashed {
+		return
+	}
+	if !c.inner.Bool(c.cfg.PCommitSubmit) {
+		return
+	}
+	tx := []byte(fmt.Sprintf("cb-%d-%d-%d", n.idx, b.Index(), c.stepNo))
+	n.node.SimCore().AddTransactionsRaw([][]byte{tx})
+	c.ledger.submit(tx, n.idx, n.epoch, c.stepNo)
+	n.acceptedTxs = append(n.acceptedTxs, tx)
+	c.stats.probe("submit-from-commit-callback")
 }
